@@ -45,7 +45,7 @@ func ExtractInstanceTags(m []byte) (ours, theirs uint32, ok bool) {
 			return 0, 0, false
 		}
 
-		if len(msg) < otrv3HeaderLen {
+		if len(msg) < otrv3HeaderLen || DeserializeShort(msg) != (otrV3{}).protocolVersion() {
 			return 0, 0, false
 		}
 
